@@ -3,13 +3,13 @@
 package main
 
 import (
-	"github.com/oauth2-proxy/oauth2-proxy/v7/pkg/encryption"
-	"os"
 	"context"
 	"fmt"
+	"github.com/oauth2-proxy/oauth2-proxy/v7/pkg/encryption"
 	"net/http"
 	"net/http/httptest"
 	"net/url"
+	"os"
 	"strconv"
 	"strings"
 	"sync"
@@ -125,14 +125,14 @@ func (s *vSched) run(e *vEnv, n int, work func(tid int), choose func(step int, e
 // ---- rotating single-use refresh tokens at the identity provider ----
 
 type vRotIdP struct {
-	mu       sync.Mutex
-	cur      int
-	succ     int
-	reuse    int
-	reusable bool // refresh tokens are not rotated out: any earlier token is still accepted
-	omitID   func(n int) bool // the n-th successful refresh response carries no id_token (allowed by OIDC core 12.2)
-	failFirst int             // that many refresh attempts are answered 503 before the provider recovers
-	outcomes  []bool          // per refresh call, in order: answered with new tokens?
+	mu        sync.Mutex
+	cur       int
+	succ      int
+	reuse     int
+	reusable  bool             // refresh tokens are not rotated out: any earlier token is still accepted
+	omitID    func(n int) bool // the n-th successful refresh response carries no id_token (allowed by OIDC core 12.2)
+	failFirst int              // that many refresh attempts are answered 503 before the provider recovers
+	outcomes  []bool           // per refresh call, in order: answered with new tokens?
 }
 
 func (r *vRotIdP) handler(email string) func(url.Values) (int, string, string, error) {
@@ -204,6 +204,8 @@ func vRunSchedule(t *testing.T, e *vEnv, n int, signOutTid int, choose func(step
 	e.idp.ctxHook = func(ctx context.Context, path string) {
 		if path == "/token" {
 			sched.yield(ctx, "token", "")
+		} else if strings.HasPrefix(path, "/do/") {
+			sched.yield(ctx, "validate", "")
 		}
 	}
 	defer func() { e.redis.ctxHook = nil; e.idp.ctxHook = nil }()
@@ -246,66 +248,65 @@ func vTraceSX(tr []vStep) vsx {
 	return vL(items...)
 }
 
-
 // vExplore: systematic DFS over the schedules of n requests with a preemption bound.
 func vExplore(t *testing.T, out *vEmitter, e *vEnv, n int, bound int, maxSchedules int, label string, signOutTid int) {
-		var prefix []int // choice indices to replay
-		count := 0
-		for {
-			var widths, chosen, kchosen []int
-			preempt := 0
-			// alternatives are numbered with the non-preempting continuation first:
-			// k = 0 keeps running the last request if it is enabled, k > 0 are the others in id order
-			choose := func(step int, enabled []int, last int) int {
-				order := make([]int, 0, len(enabled))
-				for i, tid := range enabled {
-					if tid == last {
-						order = append(order, i)
-					}
-				}
-				for i, tid := range enabled {
-					if tid != last {
-						order = append(order, i)
-					}
-				}
-				k := 0
-				if step < len(prefix) {
-					k = prefix[step]
-					if k >= len(order) {
-						k = len(order) - 1
-					}
-				}
-				kchosen = append(kchosen, k)
-				return order[k]
-			}
-			o, w, c := vRunSchedule(t, e, n, signOutTid, choose)
-			widths, chosen = w, kchosen
-			_ = c
-			count++
-			vCheckSchedule(out, o, n, label, signOutTid, e)
-			// next schedule: backtrack to the deepest step with an untried alternative within the bound
-			next := -1
-			for i := len(chosen) - 1; i >= 0; i-- {
-				if chosen[i]+1 < widths[i] {
-					// count preemptions in the prefix up to i (a switch away from a still-enabled thread)
-					preempt = 0
-					for j := 1; j <= i; j++ {
-						if o.trace[j].tid != o.trace[j-1].tid {
-							preempt++
-						}
-					}
-					if preempt <= bound {
-						next = i
-						break
-					}
+	var prefix []int // choice indices to replay
+	count := 0
+	for {
+		var widths, chosen, kchosen []int
+		preempt := 0
+		// alternatives are numbered with the non-preempting continuation first:
+		// k = 0 keeps running the last request if it is enabled, k > 0 are the others in id order
+		choose := func(step int, enabled []int, last int) int {
+			order := make([]int, 0, len(enabled))
+			for i, tid := range enabled {
+				if tid == last {
+					order = append(order, i)
 				}
 			}
-			if next < 0 || count >= maxSchedules {
-				break
+			for i, tid := range enabled {
+				if tid != last {
+					order = append(order, i)
+				}
 			}
-			prefix = append(append([]int(nil), chosen[:next]...), chosen[next]+1)
+			k := 0
+			if step < len(prefix) {
+				k = prefix[step]
+				if k >= len(order) {
+					k = len(order) - 1
+				}
+			}
+			kchosen = append(kchosen, k)
+			return order[k]
 		}
-		out.Stat("schedules_"+label, count)
+		o, w, c := vRunSchedule(t, e, n, signOutTid, choose)
+		widths, chosen = w, kchosen
+		_ = c
+		count++
+		vCheckSchedule(out, o, n, label, signOutTid, e)
+		// next schedule: backtrack to the deepest step with an untried alternative within the bound
+		next := -1
+		for i := len(chosen) - 1; i >= 0; i-- {
+			if chosen[i]+1 < widths[i] {
+				// count preemptions in the prefix up to i (a switch away from a still-enabled thread)
+				preempt = 0
+				for j := 1; j <= i; j++ {
+					if o.trace[j].tid != o.trace[j-1].tid {
+						preempt++
+					}
+				}
+				if preempt <= bound {
+					next = i
+					break
+				}
+			}
+		}
+		if next < 0 || count >= maxSchedules {
+			break
+		}
+		prefix = append(append([]int(nil), chosen[:next]...), chosen[next]+1)
+	}
+	out.Stat("schedules_"+label, count)
 }
 
 func vSchedEnv(t *testing.T) *vEnv {
@@ -341,7 +342,30 @@ func vExploreSignOutFlaky(t *testing.T, out *vEmitter, e *vEnv) {
 	vRotFailFirst = 0
 }
 
+// vExploreUnsupported: concurrent requests on a stale session at a provider that has no refresh (the loader then
+// re-stamps the session and validates it) while the provider's validation refuses the session.
+func vExploreUnsupported(t *testing.T, out *vEmitter) {
+	e := vNewEnv(t, vEnvCfg{redis: true, mod: func(o *options.Options) {
+		pr := &o.Providers[0]
+		pr.Type = "digitalocean"
+		pr.ID = "digitalocean=verif"
+		pr.ClientID = clientID
+		pr.ClientSecret = clientSecret
+		pr.LoginURL = vIssuer + "/do/authorize"
+		pr.RedeemURL = vIssuer + "/do/token"
+		pr.ProfileURL = vIssuer + "/do/account"
+		pr.ValidateURL = vIssuer + "/do/account"
+		o.Cookie.Refresh = time.Hour
+		o.EmailDomains = []string{"*"}
+	}})
+	e.idp.onPath["/do/account"] = func(*http.Request) (int, string, string, error) {
+		return 401, "application/json", `{"id":"unauthorized"}`, nil
+	}
+	vExplore(t, out, e, 2, vPick(3, 99), vPick(300, 5000), "unsupported-invalid", -1)
+}
+
 func driveC12(t *testing.T, out *vEmitter) {
+	defer vExploreUnsupported(t, out)
 	e := vSchedEnv(t)
 	vExplore(t, out, e, 2, vPick(3, 99), vPick(400, 20000), "2req", -1)
 	vExplore(t, out, e, 3, vPick(2, 3), vPick(300, 6000), "3req", -1)
@@ -358,6 +382,29 @@ func vCheckSchedule(out *vEmitter, o *vSchedOutcome, n int, label string, signOu
 	out.Stat("schedule_steps", len(o.trace))
 	if signOutTid >= 0 {
 		vCheckSignOutRace(out, o, n, signOutTid, e)
+		return
+	}
+	if label == "unsupported-invalid" {
+		// a provider that cannot refresh and whose validation refuses the session: nobody may be served
+		var seq []string
+		for _, st := range o.trace {
+			seq = append(seq, fmt.Sprintf("%d:%s", st.tid, st.kind))
+		}
+		out.Obs("schedule-"+label, true, vL(vS(strings.Join(seq, " ")), vBool(o.hit[0]), vBool(n > 1 && o.hit[1])))
+		if n == 2 && !o.deadlock {
+			// the same schedule through Model/StampRace.v (one model step per store / lock / provider operation)
+			var schedSX []vsx
+			for _, st := range o.trace {
+				schedSX = append(schedSX, vBool(st.tid == 1))
+			}
+			out.Case("stamp-race-model", true, vL(vBool(o.hit[0]), vBool(o.hit[1])), vL("stamp_race", vL(schedSX...)))
+		}
+		for i := 0; i < n; i++ {
+			if o.hit[i] {
+				out.Violation("refresh/served-without-validation", "a stale session the provider can neither refresh nor validate was honoured for a concurrent request",
+					map[string]interface{}{"request": i, "trace": strings.Join(seq, " ")})
+			}
+		}
 		return
 	}
 	var results []vsx
@@ -492,101 +539,140 @@ func (e *vEnv) serveNoUpstreamReset(req *http.Request) (res *vResult) {
 // vC12Sequential: one request at a time; session age x provider behaviour x store.
 func vC12Sequential(t *testing.T, out *vEmitter) {
 	for _, redis := range []bool{false, true} {
-	// with and without nonce checking (the default checks it: sessions then carry their login's nonce and their ID token
-	// the matching hashed claim)
-	for _, skipNonce := range []bool{true, false} {
-		e := vNewEnv(t, vEnvCfg{oidc: true, redis: redis, mod: func(o *options.Options) {
-			o.Cookie.Refresh = time.Hour
-			o.Providers[0].OIDCConfig.InsecureSkipNonce = skipNonce
-			o.InjectRequestHeaders = append(o.InjectRequestHeaders, options.Header{Name: "X-Forwarded-Access-Token",
-				Values: []options.HeaderValue{{ClaimSource: &options.ClaimSource{Claim: "access_token"}}}})
-		}})
-		for _, ageMin := range []int{1, 59, 61, 600} {
-			for _, hasRT := range []bool{true, false} {
-				for _, refreshOK := range []bool{true, false} {
-					for _, oldValid := range []bool{true, false} {
-						for _, newValid := range []bool{true, false} {
-							if !hasRT && (!refreshOK || !newValid) {
-								continue
-							}
-							if !refreshOK && !newValid {
-								continue
-							}
-							b := e.newBrowser("https://app.example.com")
-							s := b.seedSession("user@example.com", time.Duration(ageMin)*time.Minute, 20)
-							// rewrite the seeded session according to the case
-							if !hasRT {
-								s.RefreshToken = ""
-							}
-							nonceClaim := map[string]interface{}{}
-							if !skipNonce {
-								s.Nonce = []byte("login-nonce-0123456789")
-								nonceClaim["nonce"] = encryption.HashNonce(s.Nonce)
-								s.IDToken = vJWT(vKeyRSA, "RS256", vClaims("user@example.com", nonceClaim))
-							}
-							if !oldValid {
-								s.IDToken = vJWT(vKeyRSA2, "RS256", vClaims("user@example.com", nonceClaim)) // signed by an unknown key
-							}
-							vReseed(b, s)
-							calls := 0
-							e.idp.onToken = func(form url.Values) (int, string, string, error) {
-								calls++
-								if !refreshOK {
-									return 400, "application/json", `{"error":"invalid_grant"}`, nil
+		// with and without nonce checking (the default checks it: sessions then carry their login's nonce and their ID token
+		// the matching hashed claim)
+		for _, skipNonce := range []bool{true, false} {
+			e := vNewEnv(t, vEnvCfg{oidc: true, redis: redis, mod: func(o *options.Options) {
+				o.Cookie.Refresh = time.Hour
+				o.Providers[0].OIDCConfig.InsecureSkipNonce = skipNonce
+				o.InjectRequestHeaders = append(o.InjectRequestHeaders, options.Header{Name: "X-Forwarded-Access-Token",
+					Values: []options.HeaderValue{{ClaimSource: &options.ClaimSource{Claim: "access_token"}}}})
+			}})
+			for _, ageMin := range []int{1, 59, 61, 600} {
+				for _, hasRT := range []bool{true, false} {
+					for _, refreshOK := range []bool{true, false} {
+						for _, oldValid := range []bool{true, false} {
+							for _, newValid := range []bool{true, false} {
+								if !hasRT && (!refreshOK || !newValid) {
+									continue
 								}
-								k := vKeyRSA
-								if !newValid {
-									k = vKeyRSA2
+								if !refreshOK && !newValid {
+									continue
 								}
-								return 200, "application/json", vTokenJSON(vJWT(k, "RS256", vClaims("user@example.com", nonceClaim)), "at-new", "rt-new", 3600), nil
-							}
-							res := b.get("/page")
-							stale := ageMin > 60
-							outcome := "unauth"
-							if res.Hit() {
-								if res.Upstream[0].Header.Get("X-Forwarded-Access-Token") == "at-new" {
-									outcome = "new"
-								} else {
-									outcome = "old"
+								b := e.newBrowser("https://app.example.com")
+								s := b.seedSession("user@example.com", time.Duration(ageMin)*time.Minute, 20)
+								// rewrite the seeded session according to the case
+								if !hasRT {
+									s.RefreshToken = ""
 								}
-							}
-							cleared := false
-							for _, c := range res.Cookies {
-								if c.Name == e.opts.Cookie.Name && c.MaxAge < 0 {
-									cleared = true
+								nonceClaim := map[string]interface{}{}
+								if !skipNonce {
+									s.Nonce = []byte("login-nonce-0123456789")
+									nonceClaim["nonce"] = encryption.HashNonce(s.Nonce)
+									s.IDToken = vJWT(vKeyRSA, "RS256", vClaims("user@example.com", nonceClaim))
 								}
-							}
-							out.Case("sequential", true, vL(vY(outcome), vBool(calls > 0), vBool(cleared)),
-								vL("seq_refresh", vBool(stale), vBool(hasRT), vBool(refreshOK && newValid), vBool(oldValid), vBool(true)))
-							out.Stat("sequential_cases", 1)
-							// oracle
-							if stale && outcome == "old" && !oldValid {
-								out.Violation("refresh/stale-session-honoured", "a stale session was honoured although it was neither refreshed nor re-validated successfully",
-									map[string]interface{}{"redis": redis, "age_min": ageMin, "has_rt": hasRT, "refresh_ok": refreshOK})
-							}
-							if stale && outcome == "unauth" && !cleared {
-								out.Violation("refresh/unauthenticated-without-clearing", "a stale session that could not be refreshed or validated was refused without clearing the cookie",
-									map[string]interface{}{"redis": redis, "age_min": ageMin, "status": res.Status})
-							}
-							if outcome == "new" {
-								// later requests and upstream headers carry the new tokens, without another refresh
-								calls = 0
-								r2 := b.get("/page2")
-								if !r2.Hit() || r2.Upstream[0].Header.Get("X-Forwarded-Access-Token") != "at-new" || calls != 0 {
-									out.Violation("refresh/new-tokens-not-persisted", "after a refresh the next request does not carry the new tokens (or refreshed again)",
-										map[string]interface{}{"redis": redis, "hit": r2.Hit(), "calls": calls})
+								if !oldValid {
+									s.IDToken = vJWT(vKeyRSA2, "RS256", vClaims("user@example.com", nonceClaim)) // signed by an unknown key
 								}
-							}
-							if !stale && (calls > 0 || outcome != "old" && oldValid) {
-								out.Violation("refresh/fresh-session-refreshed", "a session younger than the refresh period caused a provider call or was refused",
-									map[string]interface{}{"redis": redis, "age_min": ageMin, "outcome": outcome})
+								vReseed(b, s)
+								calls := 0
+								e.idp.onToken = func(form url.Values) (int, string, string, error) {
+									calls++
+									if !refreshOK {
+										return 400, "application/json", `{"error":"invalid_grant"}`, nil
+									}
+									k := vKeyRSA
+									if !newValid {
+										k = vKeyRSA2
+									}
+									return 200, "application/json", vTokenJSON(vJWT(k, "RS256", vClaims("user@example.com", nonceClaim)), "at-new", "rt-new", 3600), nil
+								}
+								if e.redis != nil {
+									e.redis.ResetOps()
+								}
+								res := b.get("/page")
+								stale := ageMin > 60
+								// the same case once more with the store failing exactly when the unusable session is removed: the request is
+								// still unauthenticated and the browser is still told to drop the cookie
+								if e.redis != nil && stale && !res.Hit() {
+									delAt := -1
+									for _, op := range e.redis.Ops() {
+										if op.Kind == "del" && delAt < 0 {
+											delAt = op.Idx
+										}
+									}
+									if delAt >= 0 {
+										b2 := e.newBrowser("https://app.example.com")
+										b2.seedSession("user@example.com", time.Duration(ageMin)*time.Minute, 20)
+										vReseed(b2, s)
+										e.redis.ResetOps()
+										// (every delete fails: the sign-in page that answers the refused request tries to clear again)
+										e.redis.mu.Lock()
+										e.redis.failKind = map[string]bool{"del": true}
+										e.redis.mu.Unlock()
+										r2 := b2.get("/page")
+										e.redis.mu.Lock()
+										e.redis.failKind = nil
+										e.redis.mu.Unlock()
+										cleared2 := false
+										for _, c := range r2.Cookies {
+											if c.Name == e.opts.Cookie.Name && c.MaxAge < 0 {
+												cleared2 = true
+											}
+										}
+										out.Obs("sequential-delete-fault", true, vL(vI(int64(ageMin)), vBool(r2.Hit()), vBool(cleared2)))
+										out.Stat("sequential_delete_fault_cases", 1)
+										if r2.Hit() || !cleared2 {
+											out.Violation("refresh/unauthenticated-without-clearing", "a stale session that could not be refreshed or validated was refused without clearing the cookie",
+												map[string]interface{}{"redis": true, "age_min": ageMin, "status": r2.Status, "store_delete_failed": true, "forwarded": r2.Hit()})
+										}
+									}
+								}
+								outcome := "unauth"
+								if res.Hit() {
+									if res.Upstream[0].Header.Get("X-Forwarded-Access-Token") == "at-new" {
+										outcome = "new"
+									} else {
+										outcome = "old"
+									}
+								}
+								cleared := false
+								for _, c := range res.Cookies {
+									if c.Name == e.opts.Cookie.Name && c.MaxAge < 0 {
+										cleared = true
+									}
+								}
+								out.Case("sequential", true, vL(vY(outcome), vBool(calls > 0), vBool(cleared)),
+									vL("seq_refresh", vBool(stale), vBool(hasRT), vBool(refreshOK && newValid), vBool(oldValid), vBool(true)))
+								out.Stat("sequential_cases", 1)
+								// oracle
+								if stale && outcome == "old" && !oldValid {
+									out.Violation("refresh/stale-session-honoured", "a stale session was honoured although it was neither refreshed nor re-validated successfully",
+										map[string]interface{}{"redis": redis, "age_min": ageMin, "has_rt": hasRT, "refresh_ok": refreshOK})
+								}
+								if stale && outcome == "unauth" && !cleared {
+									out.Violation("refresh/unauthenticated-without-clearing", "a stale session that could not be refreshed or validated was refused without clearing the cookie",
+										map[string]interface{}{"redis": redis, "age_min": ageMin, "status": res.Status})
+								}
+								if outcome == "new" {
+									// later requests and upstream headers carry the new tokens, without another refresh
+									calls = 0
+									r2 := b.get("/page2")
+									if !r2.Hit() || r2.Upstream[0].Header.Get("X-Forwarded-Access-Token") != "at-new" || calls != 0 {
+										out.Violation("refresh/new-tokens-not-persisted", "after a refresh the next request does not carry the new tokens (or refreshed again)",
+											map[string]interface{}{"redis": redis, "hit": r2.Hit(), "calls": calls})
+									}
+								}
+								if !stale && (calls > 0 || outcome != "old" && oldValid) {
+									out.Violation("refresh/fresh-session-refreshed", "a session younger than the refresh period caused a provider call or was refused",
+										map[string]interface{}{"redis": redis, "age_min": ageMin, "outcome": outcome})
+								}
 							}
 						}
 					}
 				}
 			}
 		}
-	}
 	}
 }
 
@@ -693,7 +779,6 @@ func vC12RealRedis(t *testing.T, out *vEmitter) {
 		}
 	}
 }
-
 
 // vC12Chain: one session refreshed several times in a row at a provider with single-use (rotating) refresh
 // tokens, whose refresh responses carry an id_token always / never / every other time.  After every refresh
